@@ -426,4 +426,39 @@ theorem conflictError_isSome (c : Cmd) (u : UInfo) (ok : UsageOk c) (m : ArgMap)
     exact (List.mem_filter.mp hid).2
 
 
+/-- the keys of the potential-conflict table are the explicitly present ids of the matcher -/
+theorem potential_keys (c : Cmd) (m : ArgMap) (pot : List (Id × List Id)) (h : potential c m = some pot) :
+    ∀ p ∈ pot, p.1 ∈ explicitIds m := by
+  unfold potential at h
+  unfold explicitIds
+  generalize (m.filter fun p => p.2.checkExplicit .isPresent) = l at h
+  induction l generalizing pot with
+  | nil => simp only [List.mapM_nil, Option.pure_def, Option.some.injEq] at h; subst h; intro p hp; cases hp
+  | cons e es ih =>
+    simp only [List.mapM_cons, Option.bind_eq_bind, Option.pure_def] at h
+    cases hg : gatherDirectConflicts c e.1 with
+    | none => rw [hg] at h; simp at h
+    | some conf =>
+      rw [hg] at h
+      simp only [Option.map_some, Option.bind_some] at h
+      cases hr : es.mapM (fun p => (gatherDirectConflicts c p.1).map fun conf => (p.1, conf)) with
+      | none => rw [hr] at h; simp at h
+      | some rest =>
+        rw [hr] at h
+        simp only [Option.bind_some, Option.some.injEq] at h
+        subst h
+        intro p hp
+        rcases List.mem_cons.mp hp with rfl | hp
+        · simp
+        · have := ih rest hr p hp
+          simp only [List.map_cons, List.mem_cons]
+          exact Or.inr this
+
+/-- the conflict error is defined for the validator's own table, when the explicitly present ids of the matcher are
+args or groups of the level (the parser's store invariant, C02) -/
+theorem conflictError_isSome_matcher (c : Cmd) (u : UInfo) (ok : UsageOk c) (m : ArgMap) (pot : List (Id × List Id))
+    (hp : potential c m = some pot) (hm : ∀ id ∈ explicitIds m, Exists' c id) : (conflictError c u m pot).isSome = true :=
+  conflictError_isSome c u ok m pot fun p hpp => hm p.1 (potential_keys c m pot hp p hpp)
+
+
 end Clap.C10E
